@@ -324,7 +324,7 @@ def _sha(data):
 
 # ------------------------------------------------------------------------------------------------
 # in-toto-verify
-VERIFY_CLASSES = ["pass", "bad_sig", "expired", "expired_recently", "valid_an_hour", "garbage_extra_link", "missing_links", "threshold", "rule_violation", "insp_fail", "sub_insp_slow",
+VERIFY_CLASSES = ["pass", "bad_sig", "expired", "insp_empty_run", "expired_recently", "valid_an_hour", "garbage_extra_link", "missing_links", "threshold", "rule_violation", "insp_fail", "sub_insp_slow",
                   "link_tamper", "malformed_layout", "missing_layout", "missing_key", "malformed_key", "wrong_key",
                   "extra_key", "priv_as_pub", "keytypes_mismatch", "linkdir_missing",
                   "usage_nokey", "usage_unknown_opt", "usage_no_layout_opt", "usage_bad_int", "usage_bad_keytype",
@@ -451,6 +451,10 @@ def b_verify(rng, d, p, ks):
         import datetime as _dt
         off = -3600 if cls == "expired_recently" else 3600
         payload.expires = (_dt.datetime.now(_dt.timezone.utc) + _dt.timedelta(seconds=off)).strftime("%Y-%m-%dT%H:%M:%SZ")
+    if cls == "insp_empty_run":
+        # an inspection without a command: nothing runs, there is no exit status, the inspection did not pass
+        from in_toto.models.layout import Inspection
+        payload.inspect.append(Inspection(name="norun", run=[]))
     md = vscen.make_md(payload, dsse)
     signers = list(owners)
     sub = None
@@ -572,7 +576,7 @@ def b_verify(rng, d, p, ks):
     intent = None
     if cls in ("pass", "valid_an_hour"):
         intent = "ok"
-    elif cls == "expired_recently" or (cls == "garbage_extra_link" and garbage_done):
+    elif cls in ("expired_recently", "insp_empty_run") or (cls == "garbage_extra_link" and garbage_done):
         intent = "fail"
     elif cls == "bad_sig" and sub == "edited":
         intent = None     # an edit of a "_type" leaf of a step/inspection is normalised away on loading: not a failure
@@ -1262,6 +1266,14 @@ def b_match(rng, d, p, ks):
         k = rng.choice(sorted(recorded))
         recorded[k] = rng.choice([{"sha512": hashlib.sha512(k.encode()).hexdigest()}, {"sha1": hashlib.sha1(k.encode()).hexdigest()}])
         eff.add("differ")
+    collision = None
+    if cls == "file_collision":
+        # two local files named with the file: scheme collapse to ONE name after prefix stripping; the good one is given
+        # last: the comparison is refused (PrefixError), it is not made with the other file dropped
+        for dn, body in (("evil", b"evil\n"), ("good", b"good\n")):
+            _write(os.path.join(cwd, dn, "foo"), body)
+        recorded = {"file:foo": _sha(b"good\n")}
+        collision = (["file:evil/foo", "file:good/foo"], ["evil/", "good/"])
     link = Link(name="pkg", products=recorded, materials={})
     md = vscen.make_md(link, dsse)
     if p.get("signed"):
@@ -1293,6 +1305,8 @@ def b_match(rng, d, p, ks):
     if "exclude" in feats and exclude is None:
         exclude = ["*.nomatch"]
     argv = [rng.choice(["-l", "--link"]), link_rel]
+    if collision:
+        paths, strip = collision
     if paths is not None:
         argv += [rng.choice(["-p", "--paths"])] + paths
     if exclude:
@@ -1304,6 +1318,8 @@ def b_match(rng, d, p, ks):
     linkpath = os.path.join(cwd, link_rel)
     intent = "ok" if not eff else "fail"
     usage = False
+    if cls == "file_collision":
+        intent = "fail"
     if cls == "malformed_link":
         fjl = vscen.to_file(md)
         if isinstance(fjl, dict) and "signed" in fjl and rng.random() < 0.5:
